@@ -38,6 +38,8 @@ PKG_ROOT = "/zcsim-pkg"
 # packages whose module has no __loader__: ZConfig looks for their component
 # on the file system (real, committed files)
 NL_ROOT = os.path.join(os.path.dirname(os.path.abspath(__file__)), "nlpkg")
+# a real directory put on sys.path for PEP 420 namespace packages
+NS_ROOT = os.path.join(os.path.dirname(os.path.abspath(__file__)), "nspkg")
 
 CURRENT = None      # the installed SimWorld, or None
 
@@ -450,8 +452,8 @@ class SimPkgFinder(importlib.abc.MetaPathFinder):
 
     def find_spec(self, fullname, path=None, target=None):
         spec_info = self.world.packages.get(fullname)
-        if spec_info is None:
-            return None
+        if spec_info is None or spec_info.get("namespace"):
+            return None            # (namespace packages: Python's own finder)
         is_pkg = spec_info.get("is_package", True)
         spec = importlib.machinery.ModuleSpec(
             fullname, SimPkgLoader(self.world, fullname), is_package=is_pkg)
@@ -510,6 +512,8 @@ class SimWorld:
     def norm(self, s):
         if isinstance(s, str) and NL_ROOT in s:
             s = s.replace(NL_ROOT, "$NLPKG")
+        if isinstance(s, str) and NS_ROOT in s:
+            s = s.replace(NS_ROOT, "$NSPKG")
         if self.scratch and isinstance(s, str):
             return s.replace(self.scratch, "$SCRATCH")
         return s
@@ -664,6 +668,11 @@ class SimWorld:
         urllib.request.install_opener(build_opener(self, self.realfs))
         self._finder = SimPkgFinder(self)
         sys.meta_path.insert(0, self._finder)
+        self._ns_on_path = any(v.get("namespace")
+                               for v in self.packages.values())
+        if self._ns_on_path:
+            sys.path.insert(0, NS_ROOT)
+            importlib.invalidate_caches()
         self._saved_environ = dict(os.environ)
         self._saved_cwd = os.getcwd()
         self._L = L
@@ -705,6 +714,12 @@ class SimWorld:
         except ValueError:
             pass
         self.purge_packages()
+        if getattr(self, "_ns_on_path", False):
+            try:
+                sys.path.remove(NS_ROOT)
+            except ValueError:
+                pass
+            importlib.invalidate_caches()
         os.environ.clear()
         os.environ.update(self._saved_environ)
         try:
